@@ -523,7 +523,7 @@ func c03Run(c *core.Ctx) *core.Result {
 				switch {
 				case b == nil && x != nil:
 					r.ViolateD("applied-after-offence", det, "STAT %q comes at or after the first offending STAT (%d, %s) but was created in dest", p, specK, specWhy)
-				case b != nil && x != nil && (b.Ino != x.Ino || b.String() != x.String()):
+				case b != nil && x != nil && (b.Ino != x.Ino || noLink(b) != noLink(x)):
 					r.ViolateD("applied-after-offence", det, "STAT %q comes at or after the first offending STAT (%d, %s) but dest entry changed: %s -> %s", p, specK, specWhy, b.String(), x.String())
 				}
 			}
@@ -547,4 +547,12 @@ func tailStr(s string, n int) string {
 		return s[len(s)-n:]
 	}
 	return s
+}
+
+// noLink renders an entry without its link-group name (the group changes
+// legitimately when another member was replaced before the offence).
+func noLink(e *tree.Entry) string {
+	c := *e
+	c.LinkTo = ""
+	return c.String()
 }
